@@ -103,6 +103,13 @@ CLAIMED.update({
             OBS_NOTE),
 })
 
+CLAIMED.update({
+    "C35": ("vm-tables", "DESIGN.md §6 C35, §9 F-2",
+            "deterministic simulation with fault injection: seeded histories of Create / Blob / Upload / Upgrade transactions (out-of-order, duplicate, interleaved uploads; upgrades against taken versions) against a table model, with and without embedder rollback and with storage errors + retry",
+            "After every transaction the five tables (shadow of all storage writes behind the InterpreterStorage seam) must equal the model; a rejected transaction must leave them unchanged even without any rollback by the embedder. Sampling, not enumeration.",
+            "Trusted: the ~100-line table model, the SimStorage shadow map, the assumption that current versions advance only at block boundaries."),
+})
+
 PLANNED = {
 }
 
